@@ -158,6 +158,7 @@ Supp(addon) == IF addon = "" THEN ToSet(cfg.provs) ELSE ToSet(cfg.supp)
 SoloRelay == LET X == {x \in RelIds : rel[x].solo} IN IF X = {} THEN 0 ELSE CHOOSE x \in X : TRUE
 PreObj(q) == LET I == {i \in 1..Len(pre.objs) : pre.objs[i].p = q /\ pre.objs[i].e = pre.epoch} IN
              pre.objs[CHOOSE i \in I : TRUE]
+EpHealthy(o) == IF "epok" \in DOMAIN o THEN o.epok ELSE TRUE
 SoloFacts(r) ==
   LET x      == SoloRelay
       R      == rel[x]
@@ -171,6 +172,7 @@ SoloFacts(r) ==
                 /\ r.seq = pre.seq + 3
       fromBlocked == R.st = "held" /\ R.p \notin valid1
       servers == {q \in (valid1 \cap sup) \ R.unw :
+                    /\ EpHealthy(PreObj(q))        \* usable established connection: no dial (and no dial timeout) needed
                     /\ CuFitsP(PreObj(q).used, R.cu, R.ve, PreObj(q).max)
                     /\ SessAvailP(PreObj(q).sess, nres1, cfg.maxsess)}
   IN [solo |-> TRUE, stable |-> stable, fromBlocked |-> fromBlocked, servers |-> servers,
